@@ -205,6 +205,21 @@ for n, op, k in [("memget_order_binget_n2", "BINGET", 2), ("memget_order_long_bi
     UNITS[-1]["variant"] = "modelmap"
 
 # ---------------------------------------------------------------------------------------------------
+# MUT(first-wins) — dispatch loops of generator/mutation.rs with 2-3 registered mutators
+for n, b in [("firstwins_int_offbyone_then_boundary_r1", "[OffByOne, Boundary], rate 1.0: result is v+-1"),
+             ("firstwins_int_boundary_then_offbyone_r1", "[Boundary, OffByOne], rate 1.0: result is a boundary constant"),
+             ("firstwins_int_skips_inapplicable_r1", "[StringLength, Character, OffByOne], rate 1.0: mutators without an int method are skipped"),
+             ("firstwins_int_three_r0", "[OffByOne, Boundary, BitFlip], rate 0.0: unchanged"),
+             ("firstwins_float_r1", "[OffByOne, Boundary], rate 1.0: boundary float"), ("firstwins_float_r0", "[Boundary, BitFlip], rate 0.0: unchanged"),
+             ("firstwins_memo_offbyone_then_unsafe_r1", "[OffByOne, MemoIndex(unsafe)], rate 1.0: saturating +-1"),
+             ("firstwins_memo_r0", "[MemoIndex(unsafe), OffByOne], rate 0.0: unchanged"),
+             ("firstwins_bytes_character_declines_empty_r1", "[Character, StringLength] on the empty byte string, rate 1.0: Character declines, StringLength fires"),
+             ("firstwins_bytes_character_first_r1", "[Character, StringLength] on 2 symbolic bytes, rate 1.0: Character's contract"),
+             ("firstwins_bytes_r0", "[StringLength, Character] on 2 symbolic bytes, rate 0.0: unchanged")]:
+    H(n, "mutf.rs", "MUT(first-wins)", ["C15", "C16", "C09"], "quick", b + "; every value; fuzzer bytes 0..24",
+      stubs=ENV_STUBS, funcs=["Generator::{mutate_int,mutate_float,mutate_bytes,mutate_memo_index}"], cost=2)
+
+# ---------------------------------------------------------------------------------------------------
 # TABLE
 H("table_as_u8_matches_cpython", "table.rs", "TABLE", ["C04", "C05", "C12"], "quick", "all 68 opcode kinds (symbolic index)",
   funcs=["OpcodeKind::as_u8"])
